@@ -28,7 +28,7 @@ GENERIC = ", ".join("%s: %d" % (CT[t], i + 1) for i, t in enumerate(GEN_ORDER)) 
 SUFFIX = {"int": "", "uint": "U", "long": "L", "ulong": "UL", "llong": "LL", "ullong": "ULL"}
 LITBITS = {"int": 32, "long": 64, "llong": 64}
 DEVS = ["LogicalReturnsOperand", "BoolCastTruncates", "FloatToUnsignedRejectsNeg", "FloatCondNotFolded",
-        "UnevaluatedOperandFolded", "NoDivisionGuard", "CondSameTypeNoPromotion", "BareAddressMinusRejected"]
+        "UnevaluatedOperandFolded", "NoDivisionGuard", "CondSameTypeNoPromotion", "BareAddressMinusRejected", "SwapReassocClobbers"]
 # Deviations whose defect has been repaired in /repo by a `fix:` commit: the implementation-shaped model then runs
 # with that deviation switched off and the check demands the correct behaviour (README "Genuine defects").
 # Development override: VERIF_C04_FIXED=Name,Name|all
@@ -40,6 +40,7 @@ FIXED = ["CondSameTypeNoPromotion",       # /repo ba99903
          "FloatCondNotFolded",            # /repo 849e093
          "NoDivisionGuard",               # /repo 737afb8 (NaN range tests: 10582f3)
          "BareAddressMinusRejected"]      # /repo 95fba0e
+# (SwapReassocClobbers: never switched on in a committed configuration, see notes)
 
 
 def fixed_devs():
@@ -140,6 +141,10 @@ def render(e, params=None, pre=None):
         return ("%d%s" if e["b"] == 10 else "0%o%s" if e["b"] == 8 else "0x%x%s") % (x, suf)
     if k == "sym":
         return "arr_%s" % e["et"]
+    if k == "mem":
+        return "&st_%s.m" % e["et"]
+    if k == "pcast":
+        return "((%s)%s)" % ("long" if e["to"] == "long" else "char *", render(e["p"], params, pre))
     if k == "idx":
         return "&arr_%s[%s]" % (e["et"], render(e["a"], params, pre))
     if k == "padd":
@@ -163,7 +168,7 @@ def render(e, params=None, pre=None):
 
 def set_elem(e, et):
     """address expressions: tell every sym/idx node which array it names"""
-    if e["k"] in ("sym", "idx"):
+    if e["k"] in ("sym", "idx", "mem"):
         e["et"] = et
     for f in ("p",):
         if f in e and isinstance(e[f], dict):
@@ -180,6 +185,10 @@ def shape(e):
         return "num%d%s" % (e["b"], e["suf"])
     if k == "sym":
         return "arr"
+    if k == "mem":
+        return "&st.m"
+    if k == "pcast":
+        return "(%s)%s" % (e["to"], shape(e["p"]))
     if k == "idx":
         return "&arr[%s]" % shape(e["a"])
     if k == "padd":
@@ -195,8 +204,10 @@ def shape(e):
 
 def ops_of(e):
     k = e["k"]
-    if k in ("lit", "sym"):
+    if k in ("lit", "sym", "mem"):
         return []
+    if k == "pcast":
+        return ["(%s)" % e["to"]] + ops_of(e["p"])
     if k in ("leaf", "num"):
         return [k]
     if k == "idx":
@@ -246,7 +257,7 @@ def project(ctx, c, which):
     if ctx in ("addr", "addr_thread"):
         r = c[which]
         if r["st"] == "ok":
-            return ("reloc", "arr_%s" % c["et"], u64(r["v"]))
+            return ("reloc", "%s_%s" % (r["sym"], c["et"]), u64(r["v"]))
         return {"trap": CRASH, "error": REJECT}.get(r["st"], ANY)
     if ctx in ("static", "thread"):
         r = c["s"] if which == "s" else c["ma"]
@@ -323,6 +334,8 @@ def prepare(c, i):
     if c["f"] == "addr":
         set_elem(c["e"], c["et"])
         pre.append("%s arr_%s[%d];" % (CT[c["et"]], c["et"], c["an"]))
+        pre.append("struct ST_%s { char c; %s m; } st_%s;" % (c["et"], CT[c["et"]], c["et"]))
+        c["DT"] = {"elem": CT[c["et"]] + " *", "long": "long ", "charp": "char *"}[c["dt"]]
         c["E"] = render(c["e"], None, pre)
         c["pre"] = pre
         c["ice"] = True
@@ -364,9 +377,9 @@ def decl(ctx, c):
     """C text of context ctx for case c (names carry the case index)"""
     i, E = c["i"], c["E"]
     if ctx == "addr":
-        return "%s *q%d = %s;" % (CT[c["et"]], i, E)
+        return "%sq%d = %s;" % (c["DT"], i, E)
     if ctx == "addr_thread":
-        return "_Thread_local %s *u%d = %s;" % (CT[c["et"]], i, E)
+        return "_Thread_local %su%d = %s;" % (c["DT"], i, E)
     T = c["T"]
     V = c.get("V")
     if ctx == "static":
@@ -537,6 +550,8 @@ def judge(ctx, c, cx, obs, tag):
     key = "%s|%s|%s" % (tag, cx, c["E"])
     nontriv = len(ops_of(c["e"])) >= 1
     ctx.count(key, nontrivial=nontriv)
+    if c["f"] == "addr" and c["s"].get("ext") and obs == REJECT:
+        return True      # an address converted to an integer: accepting it as a constant is an extension (6.6p10)
     if not c["ice"] and cx in ICE_CONTEXTS and obs == REJECT:
         return True      # 6.6p6: not an integer constant expression; acceptance is an extension, rejection is allowed
     if obs[0] == "data" and c["s"]["t"] in ("float", "double") and obs[1] and obs[1][-1] == 0x80 and not any(obs[1][:-1]):
@@ -649,7 +664,7 @@ def run_runtime(ctx, objdir, cases, tag, per=150):
         lines.append(prelude(cs))
         for c in cs:
             if c["f"] == "addr":
-                lines.append("long r%d(void) { return (char *)%s - (char *)arr_%s; }" % (c["i"], c["E"], c["et"]))
+                lines.append("long r%d(void) { return (long)%s - (long)&%s_%s; }" % (c["i"], c["E"], c["s"]["sym"], c["et"]))
                 calls.append('\tprintf("%%d %%llx\\n", %d, (unsigned long long)r%d());' % (c["i"], c["i"]))
                 continue
             ps = []
